@@ -1125,6 +1125,7 @@ void op_ENUM(World& w, const Op& op)
 
 void op_UDT_NAME(World& w, const Op& op)
 {
+   if (w.flags.fill_at_creation) return;
    // fill: give a user-defined type its name
    auto& n = *World::pick(w.names, op.c);
    const Node* node = nullptr;
@@ -1142,7 +1143,7 @@ void op_UDT_NAME(World& w, const Op& op)
 
 void op_ENUM_BASE(World& w, const Op& op)
 {
-   if (w.enums.empty()) return;
+   if (w.enums.empty() || w.flags.fill_at_creation) return;
    auto e = World::pick(w.enums, op.a);
    auto& t = *World::pick(w.types, op.b);
    e->underlying = &t;
